@@ -137,6 +137,12 @@ def extra_vectors(name, rng, n=6):
         from harness import sweep as _sweep
         vs = [v for c, l in _sweep.library_vectors().items() if _sweep.qualname(c) == name for v in l][:2]
         return [v[:-5] + bytes([b]) + v[-4:] for v in vs for b in (2, 0x80, 0xff) if len(v) > 5]
+    if short == 'HttpHeaderFieldValueNetworkErrorLogging':
+        # sampling fractions (NEL section 5.2: a number between 0.0 and 1.0): small ones are the realistic ones
+        out = []
+        for sf, ff in ((0.00001, 1.0), (0.0005, 0.25), (1e-7, 0.999999), (rng.random() / 10 ** rng.randint(3, 9), rng.random())):
+            out.append(('{"report_to": "default", "max_age": 2592000, "success_fraction": %s, "failure_fraction": %s}' % (format(sf, '.12f').rstrip('0'), repr(ff))).encode('ascii'))
+        return out
     if short in ('DnsNameUncompressed', 'DnsRecordMx'):
         # internationalised names: A-labels (xn--) on the wire, U-labels in the object
         names = [[b'xn--bcher-kva', b'example'], [b'xn--r8jz45g', b'xn--zckzah'], [b'www', b'xn--mnchen-3ya', b'de']]
@@ -192,3 +198,49 @@ def class_sweep(chk, rng, per_vector):
             for pred, detail in roundtrip_failures(cls, b):
                 yield cls, name, b, pred, detail
     chk.coverage['class_sweep'] = {'classes': len(vectors), 'buffers': evals}
+
+
+def nested_values(obj, depth=0, seen=None, path=''):
+    """(path, value) for the parsable and composable values nested in an object (attrs fields, lists, tuples, protocol vectors)"""
+    import attr
+    seen = set() if seen is None else seen
+    if depth > 6 or id(obj) in seen or isinstance(obj, (type, str, bytes, bytearray, int, float)) or obj is None:
+        return
+    seen.add(id(obj))
+    if depth and hasattr(type(obj), 'parse_exact_size') and hasattr(obj, 'compose'):
+        yield path, obj
+    if attr.has(type(obj)):
+        for f in attr.fields(type(obj)):
+            try:
+                v = getattr(obj, f.name)
+            except Exception:  # pylint: disable=broad-except
+                continue
+            yield from nested_values(v, depth + 1, seen, path + '.' + f.name)
+    elif isinstance(obj, (list, tuple)) or (hasattr(obj, '_items') and hasattr(obj, 'get_param')):
+        for i, v in enumerate(list(obj)[:8]):
+            yield from nested_values(v, depth + 1, seen, path + '[%d]' % i)
+
+
+def nested_failures(obj):
+    """C01 for the nested values of an object the parser returned: each composes to bytes its own class accepts back, entirely, as an equal value"""
+    from cryptodatahub.common.exception import InvalidValue
+    from cryptoparser.common.exception import InvalidType, NotEnoughData, TooMuchData
+    for path, v in nested_values(obj):
+        tname = sweep.qualname(type(v))
+        try:
+            b = v.compose()
+            b = b.encode('ascii') if isinstance(b, str) else bytes(b)
+        except (NotImplementedError, InvalidValue, InvalidType, NotEnoughData, TooMuchData):
+            continue
+        except Exception as e:  # pylint: disable=broad-except
+            yield tname, path, 'nested-compose-raises', 'compose of the nested %s raises %s' % (tname, type(e).__name__)
+            continue
+        try:
+            back = type(v).parse_exact_size(b)
+        except NotImplementedError:
+            continue
+        except Exception as e:  # pylint: disable=broad-except
+            yield tname, path, 'nested-composed-not-accepted', 'the bytes %r composed by the nested %s are not accepted by its own parser (%s)' % (b[:40], tname, type(e).__name__)
+            continue
+        if not same(back, v):
+            yield tname, path, 'nested-roundtrip-unequal', 'parse(compose(v)) differs from the nested %s' % tname
